@@ -267,7 +267,10 @@ int lha_input_stream_skip(LHAInputStream *stream, size_t bytes)
 
 			result = do_read(stream, data, len);
 
-			if (result < 0) {
+			// A result of zero means the end of the input has
+			// been reached before all the bytes were skipped.
+
+			if (result <= 0) {
 				return 0;
 			}
 
